@@ -128,7 +128,7 @@ class C13(scen.PairProp):
                 return f"crash: main={r['crashed']} handlers={r['handler_crashes']}"
         A, B = (scen.rings(r) for r in reply["runs"])
         tol = 1e-9 if req["mode"].startswith("inertia1") else 1e-6
-        if len(A) != len(B):
+        if abs(len(A) - len(B)) > 1:       # (a strike due at the very end of the run may be cut off in one of them)
             return f"{req['mode']}: {len(A)} strikes in one run, {len(B)} in the other"
         for i, ((ta, ba, _), (tb, bb, _)) in enumerate(zip(A, B)):
             if ba != bb or abs(ta - tb) > tol:
